@@ -110,18 +110,23 @@ class MultiObjectiveProblem(Problem[P]):
         self.initialized = not isinstance(self.minimize, bool) and self.n_objectives is not None
 
         def default_single_objective_merge(d: Any) -> float:
-            if isinstance(self.minimize, list):
-                return sum(m and -fit or +fit for (fit, m) in zip(fitness_function(d), self.minimize))
-            elif isinstance(self.minimize, bool):
-                return sum(-fit if self.minimize else fit for fit in fitness_function(d))
-            else:
-                assert False, "minimize must be either a list[bool] or a bool"
+            return self.merge_components(fitness_function(d))
+
+        self.default_merge = best_individual_criteria_function is None
 
         self.ff = {
             "ff": fitness_function,
             "best_individual": best_individual_criteria_function or default_single_objective_merge,
             "aggregate_fitness": aggregate_fitness,
         }
+
+    def merge_components(self, components: list[float]) -> float:
+        if isinstance(self.minimize, list):
+            return sum(m and -fit or +fit for (fit, m) in zip(components, self.minimize))
+        elif isinstance(self.minimize, bool):
+            return sum(-fit if self.minimize else fit for fit in components)
+        else:
+            assert False, "minimize must be either a list[bool] or a bool"
 
     def evaluate(self, phenotype: P) -> Fitness:
         lst: list[float] = self.ff["ff"](phenotype)
@@ -136,7 +141,9 @@ class MultiObjectiveProblem(Problem[P]):
                 self.minimize = [bool(self.minimize) for _ in multiple]
             self.n_objectives = len(multiple)
             self.initialized = True
-        if self.ff["aggregate_fitness"] is None:
+        if self.ff["aggregate_fitness"] is None and self.default_merge:
+            single = self.merge_components(multiple)  # from the components just computed: one invocation per evaluation
+        elif self.ff["aggregate_fitness"] is None:
             single = self.ff["best_individual"](phenotype)
         else:
             single = self.ff["aggregate_fitness"](multiple)
